@@ -119,6 +119,10 @@ func (s *Staking) processDoubleSignV5(config *params.YouParams, currentDB *state
 	if len(doubleSign.Signs) < 2 {
 		return
 	}
+	// two votes for the same block hash are not an equivocation: the same vote listed twice must not be slashable
+	if doubleSign.Signs[0].Hash == doubleSign.Signs[1].Hash {
+		return
+	}
 
 	log.Info("slashing", "type", EvidenceTypeDoubleSignV5, "parent", parentHeight, "eRound", doubleSign.Round, "eRoundIndex", doubleSign.RoundIndex, "sinerIdx", doubleSign.SignerIdx, "signs", len(doubleSign.Signs))
 	switch {
